@@ -173,6 +173,19 @@ def correspondence(ctx):
             if bad:
                 ctx.violation('nonconforming:%s:%s:%s' % (op, a, b), {'cell': [op, a, b], 'observed': rec,
                                                                        'why': 'run-time results %s do not conform to the inferred %s' % ([c[0] for c in bad][:3], rec['type'])})
+        for ps in rec.get('per_sample', []):
+            ctx.count('cells-on-further-sample-values')
+            if 'raised' in ps:
+                ctx.violation('tifa-raises:%s:%s:%s' % (op, a, b), {'cell': [op, a, b], 'values': ps, 'why': 'analysis raised %s' % ps['raised']})
+            elif always_type_error and not ps['incompatible']:
+                ctx.violation('unreported:%s:%s:%s' % (op, a, b),
+                              {'cell': [op, a, b], 'values': ps,
+                               'why': 'CPython raises TypeError for %s %s %s whatever the values, but TIFA reports nothing for  a = %s; b = %s'
+                                      % (a, op, b, ps['a'], ps['b'])})
+            elif ps.get('conforms') is False and op in BINOPS and not (op == 'Mod' and a == 'str'):
+                ctx.violation('nonconforming:%s:%s:%s' % (op, a, b),
+                              {'cell': [op, a, b], 'values': ps,
+                               'why': 'the run-time result of  %s %s %s  does not conform to the inferred %s' % (ps['a'], op, ps['b'], ps['type'])})
         aug = rec.get('aug')
         if aug is not None and 'raised' not in rec:
             ctx.count('augmented-assignment-cells')
